@@ -377,7 +377,7 @@ PLANS["C19"] = {
              "original and answer all queries; skip_option over optionals holding every serializable type, plain and nested, must land exactly on the next element; absent_option/absent_option_size; "
              "distinct = digest of the instance"),
     "legs": {
-        "quick": [leg("rel", 16), leg("dbg", 16), leg("miri", 6, "subsets", of=24, budget=1500), leg("miri", 4, "composites", of=40, budget=1500)],
+        "quick": [leg("rel", 16), leg("dbg", 16), leg("miri", 6, "subsets", of=24, budget=1200), leg("miri", 4, "composites", of=40, budget=1200)],
         "thorough": [leg("rel", 16), leg("dbg", 16), leg("rel-nobmi", 8), leg("miri", 12, "subsets", of=24, budget=10000), leg("miri", 8, "composites", of=40, budget=10000)],
     },
     "require": {"quick": [("probe", "sel_build_long", 1), ("probe", "skip_option", 10)], "thorough": [("probe", "sel_build_long", 1), ("probe", "skip_option", 10)]},
